@@ -11,6 +11,9 @@ fn main() {
         install_panic_hook();
         std::process::exit(vpcore::checks::c08::child_main(&args[2..]));
     }
+    if args.len() >= 2 && args[1] == "c12-digest" {
+        std::process::exit(vpcore::checks::c12::digest_main(&args[2..]));
+    }
     if args.len() < 3 || args[1] != "check" {
         eprintln!("usage: vp check <ID> [--tier quick|thorough] [--seed N] [--replay FILE]");
         std::process::exit(2);
